@@ -90,3 +90,12 @@ package xsub
 //@   ensures result.Self == 33 && result.Peer == 32 && result.SelfName == "sub" && result.PeerName == "pub"
 //@
 // ---- end generated Info contracts ----
+
+// ---- generated wrapper contracts (tools/gen_wrapper_contracts.py) ----
+//@ func NewSocket
+//@   ghost pr = result at call:NewProtocol#1
+//@   ghost so = result at call:MakeSocket#1
+//@   before call:NewProtocol#1 assert callee_is("protocol/xsub.NewProtocol")
+//@   before call:MakeSocket#1 assert arg0 == pr
+//@   ensures isnil(result1) && result0 == so
+// ---- end generated wrapper contracts ----
